@@ -214,7 +214,8 @@ def run(ctx):
         "density profile in [0,1] with min 0 and max 1 on the implementation (theorem is about the normalisation step)",
     ]
     # Props/PyTieScores.vo: ppos / compute_percentiles as TRANSLATED from the source = the model
-    proved = cm.prove(ctx, extractors=["c20", "pygen"], extra_targets=["Props/PyTieScores.vo"])
+    proved = cm.prove_with_kernels(ctx, ["c_paretofront"], extractors=["c20", "pygen"],
+                                   extra_targets=["Props/PyTieScores.vo"])
     cm.use_impl()
     import pandas as pd
     from hydrodiy.stat import sutils
